@@ -19,7 +19,7 @@ func init() {
 	Register(&Rule{
 		ID:    "R-ENUM",
 		Doc:   "constant-set dataflow over the switch of thrift.skip: every thrift.Type constant except STOP reaches a case of its own; json Encoder/Decoder option methods: the constant or'ed in (and and-not'ed out on the other branch of a bool setter) is the exported flag whose name the method carries (SetEscapeHTML ↔ EscapeHTML, UseNumber ↔ UseNumber, …), and both branches use the same constant",
-		Props: []string{"C08", "C14", "C01", "C02", "C13"},
+		Props: []string{"C08", "C14", "C01", "C02", "C13", "C05"},
 		Min:   map[string]int{"C08": 10, "C14": 8, "C01": 3, "C02": 5},
 		Run:   runEnum,
 	})
@@ -173,12 +173,16 @@ func runEnum(c *core.Ctx) []core.Obligation {
 		switch {
 		case strings.HasSuffix(rt, "json.Encoder"):
 			table, props = appendFlags, []string{"C14", "C01"}
+			if strings.Contains(fn.Name(), "RawMessage") {
+				props = []string{"C14", "C01", "C05"}
+			}
 		case strings.HasSuffix(rt, "json.Decoder"):
 			table, props = parseFlags, []string{"C14", "C02"}
 		default:
 			continue
 		}
 		var ors, andnots []int64
+		var others []string
 		for _, blk := range fn.Blocks {
 			for _, in := range blk.Instrs {
 				bo, ok := in.(*ssa.BinOp)
@@ -200,6 +204,9 @@ func runEnum(c *core.Ctx) []core.Obligation {
 				case token.AND:
 					// flags &= ^X is compiled as an AND with the complemented constant
 					andnots = append(andnots, ^k&0xFFFFFFFF)
+				default:
+					// ^= toggles: SetX(false) on an encoder whose X is already off turns it on
+					others = append(others, fmt.Sprintf("applies %s %#x to the flags", bo.Op, k))
 				}
 			}
 		}
@@ -209,6 +216,12 @@ func runEnum(c *core.Ctx) []core.Obligation {
 		mname := fn.Name()
 		key := "enum:json-option:" + strings.TrimPrefix(rt, "*") + "." + mname
 		var problems []string
+		for _, o := range others {
+			problems = append(problems, o+" (a setter sets with | and clears with &^: any other operator makes the result depend on the previous state — SetEscapeHTML(false) twice turns escaping back on)")
+		}
+		if len(andnots) == 0 && len(others) == 0 && fn.Signature.Params().Len() == 1 && fn.Signature.Params().At(0).Type().String() == "bool" {
+			problems = append(problems, "never clears the flag on the off branch")
+		}
 		for _, k := range ors {
 			fname := nameOf(table, k)
 			want := strings.TrimPrefix(mname, "Set")
